@@ -309,6 +309,10 @@ X_Project(e) ==
              /\ Len(e.r.devx) = e.a.n /\ AllLeq(e.r.devx, 1000) /\ AllLeq(e.r.devy, 1000)   \* spherical Mercator on R = 6378137 within 1e-6 m
              /\ Len(e.r.dlon) = e.a.n /\ AllLeq(e.r.dlon, 20) /\ AllLeq(e.r.dlat, 20))      \* back within 2e-10 degree
 
+\* ---- C19 ------------------------------------------------------------------
+\* r = <<result of the call run alone, result of the same call run concurrently>> (sorted lists)
+X_Conc(e) == Ok(e) /\ e.r[1] = e.r[2]
+
 \* ---- dispatch -------------------------------------------------------------
 Explains(e) ==
   /\ e.bad = ""
@@ -363,6 +367,7 @@ Explains(e) ==
       [] e.op = "Line3"                -> X_Line3(e)
       [] e.op = "Quat"                 -> X_Quat(e)
       [] e.op = "Project"              -> X_Project(e)
+      [] e.op = "Conc"                 -> X_Conc(e)
       [] OTHER -> FALSE
 
 \* what the specification expected (diagnostics for a rejected line)
@@ -422,6 +427,7 @@ Expected(e) ==
     [] e.op = "Matrix"               -> [ab |-> MMul(e.a.A, e.a.B)]
     [] e.op \in {"SetOps", "MaxMin", "Line3", "Quat"} -> "helper law"
     [] e.op = "Project"              -> "Mercator within 1e-6 m, round trip within 2e-10 deg, altitude and list structure kept; unknown code = error"
+    [] e.op = "Conc"                 -> "the result of the call executed alone"
     [] OTHER -> "no-spec-operator"
 
 \* ---- recorded deviations (known findings) -----------------------------------
